@@ -160,11 +160,62 @@ func propPad(c harness.Case) harness.Result {
 		da := tree.DumpRoot(a[i], 0, 0)
 		db := tree.DumpRoot(b[i], int64(len(pad)), shiftLines)
 		if da != db {
-			res.Err = fmt.Errorf("pad %q (%d bytes, %d lines): block %d differs\nwithout pad:\n%s\nwith pad (shifted back):\n%s", pad, len(pad), shiftLines, i, da, db)
+			res.Err = fmt.Errorf("pad %q (%d bytes, %d lines): block %d differs\nwithout pad:\n%s\nwith pad (shifted back):\n%s", clipPad(pad), len(pad), shiftLines, i, da, db)
 			return res
 		}
 	}
+	// the same through the streaming entry point (blank lines belong to no
+	// block, however many there are)
+	if c.I["stream"] == 1 {
+		sb, _, err := tree.StreamParse(bytes.NewReader(px))
+		if err != nil {
+			res.Err = fmt.Errorf("pad of %d bytes: streaming parse reported %v", len(pad), err)
+			return res
+		}
+		if len(sb) != len(a) {
+			res.Err = fmt.Errorf("pad of %d bytes: streaming parse gives %d blocks, %d without the pad", len(pad), len(sb), len(a))
+			return res
+		}
+		for i := range a {
+			if da, db := tree.DumpRoot(a[i], 0, 0), tree.DumpRoot(sb[i], int64(len(pad)), shiftLines); da != db {
+				res.Err = fmt.Errorf("pad of %d bytes, streaming: block %d differs\nwithout pad:\n%s\nwith pad (shifted back):\n%s", len(pad), i, da, db)
+				return res
+			}
+		}
+	}
 	return res
+}
+
+func clipPad(p []byte) []byte {
+	if len(p) > 60 {
+		return append(append([]byte(nil), p[:60]...), "..."...)
+	}
+	return p
+}
+
+// long paddings: blank-line runs longer than the streaming parser's block limit
+func longPadding(t *testing.T, plan harness.Plan) {
+	if harness.Cfg().Shard != 0 {
+		return
+	}
+	const name = "long_padding"
+	n := 0
+	for _, size := range []int{900000, 1100000, 2200000} {
+		for _, unit := range []string{"\n", " \n", "\r\n", "\t \r"} {
+			for _, x := range []string{"# h\n\npara [r]\n\n[r]: /u\n", "> q\n> r\n"} {
+				c := harness.Case{In: []byte(x)}
+				c.SetB("pad", []byte(strings.Repeat(unit, size/len(unit))))
+				c.SetI("stream", 1)
+				res := propPad(c)
+				n++
+				harness.CountRaw(name, uint64(size*31+len(unit)*7+len(x)), true, func() string { return fmt.Sprintf("%d bytes of %q before %q", size, unit, x) })
+				if res.Err != nil && harness.Fail(t, plan, name, c, res.Err) {
+					return
+				}
+			}
+		}
+	}
+	harness.SetExhaustive(name, fmt.Sprintf("%d documents: 0.9 / 1.1 / 2.2 MB of blank lines (four spellings) before two small documents, in memory and streamed", n))
 }
 
 // (c) final newline. Three sub-domains, chosen so that the comparison never
@@ -258,6 +309,9 @@ func genPad(t *rapid.T) harness.Case {
 	}
 	c := harness.Case{In: x}
 	c.SetB("pad", pad)
+	if rapid.Bool().Draw(t, "stream") {
+		c.SetI("stream", 1)
+	}
 	return c
 }
 
@@ -277,6 +331,12 @@ func TestProperty(t *testing.T) {
 		{Name: "last_lines", Prop: propFinal,
 			Rule: "enumerated: every kind of line the block and inline rules treat specially (unfinished and finished constructs, markers alone, fences with and without info strings and backticks, underlines, HTML block openers and closers, definitions and their parts, white space, NUL, invalid UTF-8) as the last line, without line ending, of every kind of context (empty, after a paragraph, in quotes and items, in open code / HTML blocks, after a definition, inside unfinished inline constructs), under the final-newline relation in all three line-ending styles"},
 	}}
-	plan.After = func(t *testing.T) { lastLineCheck(t, plan) }
+	plan.Checks = append(plan.Checks, harness.Check{Name: "long_padding", Prop: propPad, Rule: "enumerated: blank-line runs of 0.9-2.2 MB (longer than any block may be) before a small document, through Parse and through the streaming parser"})
+	plan.After = func(t *testing.T) {
+		lastLineCheck(t, plan)
+		if !t.Failed() {
+			longPadding(t, plan)
+		}
+	}
 	harness.Run(t, plan)
 }
